@@ -319,6 +319,10 @@ def default_value(kind):
     nl = _DEFAULTS['nl']
     if kind == 'node':
         return nl[0], 'D'
+    if kind == 'empty':
+        if 'empty' not in _DEFAULTS:
+            _DEFAULTS['empty'] = N.LatexNodeList([])
+        return _DEFAULTS['empty'], ''
     return nl, 'D{v}'
 
 
@@ -644,7 +648,9 @@ def run_shard(desc, rec):
                 rec.sample(s)
             check_case({'what': 'arginfo', 's': s}, rec)
     else:
-        vals = ['1', 'x y', '{a,b}', '{x=y}', '\\textbf{c,d}', '$e,f$', '', ' 2 ', '{p}q', 'u=v', '{ {w} }', '\\alpha', '%c,\n3']
+        vals = ['1', 'x y', '{a,b}', '{x=y}', '\\textbf{c,d}', '$e,f$', '', ' 2 ', '{p}q', 'u=v', '{ {w} }', '\\alpha', '%c,\n3',
+                # values that are empty once unwrapped
+                '{}', '{}', ' {} ', '{ }']
         for i in range(desc['count']):
             n = rng.randint(1, 6)
             keys = [rng.choice(KEYS) for _ in range(n)]
@@ -672,7 +678,7 @@ def run_shard(desc, rec):
                 rec.case()
                 case = {'s': s if i % 4 != 3 else s.replace(',', ';').replace('=', ':'), 'what': 'keyval', 'policy': policy,
                         'extract': bool((i + len(policy)) % 2), 'seps': [',', '='] if i % 4 != 3 else [';', ':'],
-                        'default': (None, 'node', 'list')[(i + pi) % 3],
+                        'default': (None, 'node', 'list', 'empty')[(i + pi) % 4],
                         'second_policy': (None, 'first', 'concatenate', 'last')[(i // 3 + pi) % 4]}
                 if len(set(keys)) < len(keys):
                     rec.nontrivial((s, policy))
